@@ -1066,6 +1066,11 @@ func (app *BaseApp) runTx(mode runTxMode, txBytes []byte, tx sdk.Tx) (result sdk
 	// Create a new context based off of the existing context with a cache wrapped
 	// multi-store in case message processing fails.
 	runMsgCtx, newMS := app.txContext(ctx, txBytes) // todo edit here!!!
+	if mode == runTxModeSimulate {
+		// a simulation must never touch the state the next block builds on: run the
+		// message on a cache-wrapped multi-store that is never written back
+		runMsgCtx, _ = app.cacheTxContext(ctx, txBytes)
+	}
 	result = app.runMsg(runMsgCtx, msgs, mode, signer)
 	result.GasWanted = gasWanted
 
